@@ -403,7 +403,7 @@ pub fn gen_mom_cfg(rng: &mut Xoroshiro128StarStar, saturated: bool) -> MomCfg {
         tick,
         seed: rng.gen_range(0..1_000_000),
         n,
-        decay: ["1", "1/2", "1/4", "3/4"][rng.gen_range(0..4)].into(),
+        decay: ["1", "1/2", "1/4", "3/4", "3/2"][rng.gen_range(0..5)].into(),
         // 1/2 with saturated demand 4n: limit-order probability 2 >= 1, still deterministic
         ratio: if saturated { ["0", "1", "1", "1/2"][rng.gen_range(0..4)].into() } else { ["0", "1", "1"][rng.gen_range(0..3)].into() },
         // saturated: |demand * tanh(scale * M) / n| >= 1 whenever M != 0
